@@ -5,9 +5,13 @@ HERE = os.path.dirname(os.path.dirname(os.path.abspath(__file__)))
 ids = [json.loads(l)['id'] for l in open(os.path.join(HERE, 'properties.jsonl'))]
 
 CORE_NOTE = ('Trusted: TLC/SANY, PyCdlibModel.tla + NameRules.tla + Trace_Model.tla, the Python driver/projection '
-             '(harness/driver.py, project.py), CPython hashlib/struct. Bounded: 3 names, depth 2, <= 3-4 entries per '
-             'namespace, blobs of 0/2049 bytes, 12 configurations (pairwise cover), behaviours <= 4 (tour) / 8-11 '
-             '(simulation) calls. After a step matching a listed known finding the rest of that behaviour is not judged.')
+             '(harness/driver.py, project.py), CPython hashlib/struct. Bounded: realisation tables of 2-17 names (core, tiny, '
+             'unicode, bigdir, longrr, huge, pack witnesses), depth <= 2, <= 3-4 entries per namespace in the tours, blobs of '
+             '0/1/2/2048/2049/4096 bytes and one virtual content of 4 GiB + 6 KiB, 12 configurations (pairwise cover), '
+             'behaviours <= 4-6 calls (tours, focused alphabets), 8-14 (simulation), lifecycle compositions A;close;B. '
+             'The corpus also holds the traces recorded from the repository\'s own integration tests (harness/pytest_record.py, '
+             'lazy and always-consistent pass). The binding self-test (harness/selftest_core.py: 40 corrupted traces must be '
+             'rejected) runs with C01. After a step matching a listed known finding the rest of that behaviour is not judged.')
 IMG_NOTE = CORE_NOTE + ' Plus the independent decoders under harness/decoders (written from the standards, no pycdlib import) and ImageChecks.tla/Volume.tla.'
 
 CHECKS = {
